@@ -23,6 +23,9 @@ func init() { subs["page"] = pageMain }
 type pgSpec struct {
 	items   []int
 	hasNext bool
+	// stream paginators only: the link to the following page is the FUTURE link, not the next link (the page that
+	// follows is immediately available: for a finite chain the iteration is the same as through next links)
+	viaFuture bool
 }
 
 type pgColl struct {
@@ -51,7 +54,7 @@ type mPage struct {
 	idx int
 }
 
-func (p *mPage) HasNext() bool { return p.c.pages[p.idx].hasNext }
+func (p *mPage) HasNext() bool { return p.c.pages[p.idx].hasNext && !p.c.pages[p.idx].viaFuture }
 func (p *mPage) GetItemIterator() (pagination.IIterator, error) {
 	if p.c.iterFail && p.idx == 0 {
 		return nil, errors.New("cannot create iterator")
@@ -76,9 +79,16 @@ func (p *mPage) GetNext(ctx context.Context) (pagination.IPage, error) {
 	}
 	return n, nil
 }
-func (p *mPage) HasFuture() bool { return false }
+func (p *mPage) HasFuture() bool { return p.c.pages[p.idx].hasNext && p.c.pages[p.idx].viaFuture }
 func (p *mPage) GetFuture(ctx context.Context) (pagination.IStream, error) {
-	return nil, errors.New("no future")
+	if !p.HasFuture() {
+		return nil, errors.New("no future")
+	}
+	n, err := p.fetch()
+	if err != nil {
+		return nil, err
+	}
+	return n, nil
 }
 
 type pager interface {
@@ -141,8 +151,16 @@ func newPager(kind string, c *pgColl, firstFail bool) (pager, error) {
 				return nil, ff
 			}
 			return first, nil
-		}, staticNext, func(context.Context, pagination.IStaticPageStream) (pagination.IStaticPageStream, error) {
-			return nil, errors.New("no future")
+		}, staticNext, func(_ context.Context, cur pagination.IStaticPageStream) (pagination.IStaticPageStream, error) {
+			mp := cur.(*mPage)
+			if !mp.HasFuture() {
+				return nil, errors.New("no future")
+			}
+			n, err := mp.fetch()
+			if err != nil {
+				return nil, err
+			}
+			return n, nil
 		})
 		if p == nil {
 			return nil, err
@@ -247,7 +265,7 @@ func pageMain(args []string) {
 			if !honest && rnd.Chance(30) {
 				hn = !hn
 			}
-			c.pages = append(c.pages, pgSpec{its, hn})
+			c.pages = append(c.pages, pgSpec{items: its, hasNext: hn})
 		}
 		if rnd.Chance(25) {
 			c.budget = rnd.Intn(np + 1)
@@ -287,6 +305,14 @@ func pageMain(args []string) {
 		for _, kind := range pagerKinds {
 			cc := c
 			cc.fetches = 0
+			if strings.HasPrefix(kind, "stream") && i%3 == 0 {
+				// some of the links of the chain are future links (every other one, or all of them)
+				cc.pages = append([]pgSpec{}, c.pages...)
+				for j := range cc.pages {
+					cc.pages[j].viaFuture = i%2 == 0 || j%2 == 0
+				}
+				rep.Hist("stream-with-future-links")
+			}
 			p, err := newPager(kind, &cc, false)
 			if err != nil || p == nil {
 				rep.Fail(hx.Failure{Kind: "harness-error", Key: "ctor", Case: kind + " " + c.encode(), Detail: fmt.Sprint(err)})
@@ -396,7 +422,7 @@ func pageMain(args []string) {
 	// ---- constructor failures must be reported ---------------------------------------------
 	for _, kind := range pagerKinds {
 		for _, mode := range []string{"first-page-fetch-fails", "first-page-iterator-fails"} {
-			c := pgColl{pages: []pgSpec{{[]int{1}, false}}, budget: -1, iterFail: mode == "first-page-iterator-fails"}
+			c := pgColl{pages: []pgSpec{{items: []int{1}}}, budget: -1, iterFail: mode == "first-page-iterator-fails"}
 			_, err := newPager(kind, &c, mode == "first-page-fetch-fails")
 			rep.Eval("ctor "+kind+" "+mode, true)
 			rep.Hist("ctor-failure-cases")
